@@ -1,6 +1,7 @@
-/- C15 — helper lemmas for "no lookup is lost": unless a 16-bit id was handed out while still
-outstanding / still in the ring (`idReuse`), every issued lookup is outstanding, called back,
-cancelled or was refused — also for lookups issued and cancelled from inside callbacks.
+/- C15 — helper lemmas for "no lookup is lost": the id allocation always finds a free id while
+fewer than 65 535 lookups are outstanding (pigeonhole), so no outstanding lookup is ever
+overwritten; every issued lookup is outstanding, called back, cancelled or was refused — also for
+lookups issued and cancelled from inside callbacks; a cancelled lookup is never called.
 Core Lean only. -/
 import TboxModel.C15.Pending
 namespace Tbox.C15
@@ -13,17 +14,13 @@ def Acc (st : St) : Prop :=
   ∀ s, s < st.nextSerial →
     s ∈ st.called ∨ s ∈ st.cancelled ∨ s ∈ st.refused ∨ ∃ e ∈ st.reqs, e.2.serial = s
 
-/-- `idReuse` only ever rises, and while it is down a transition keeps the accounting -/
-def Pres (st st' : St) : Prop :=
-  st'.idReuse = false → st.idReuse = false ∧ (KU st → Acc st → KU st' ∧ Acc st')
+/-- a transition keeps the accounting -/
+def Pres (st st' : St) : Prop := KU st → Acc st → KU st' ∧ Acc st'
 
-theorem Pres.refl (st : St) : Pres st st := fun h => ⟨h, fun k a => ⟨k, a⟩⟩
+theorem Pres.refl (st : St) : Pres st st := fun k a => ⟨k, a⟩
 
-theorem Pres.trans {a b c : St} (h1 : Pres a b) (h2 : Pres b c) : Pres a c := by
-  intro hc
-  obtain ⟨hb, f2⟩ := h2 hc
-  obtain ⟨ha, f1⟩ := h1 hb
-  exact ⟨ha, fun k a => let r := f1 k a; f2 r.1 r.2⟩
+theorem Pres.trans {a b c : St} (h1 : Pres a b) (h2 : Pres b c) : Pres a c :=
+  fun k a => let r := h1 k a; h2 r.1 r.2
 
 theorem key_inj (l : List (Nat × Req)) (hnd : (l.map (·.1)).Nodup) {e e' : Nat × Req}
     (h1 : e ∈ l) (h2 : e' ∈ l) (heq : e.1 = e'.1) : e = e' := by
@@ -62,49 +59,126 @@ theorem bump_keys (reqs : List (Nat × Req)) (id : Nat) :
   simp only [Function.comp]
   split <;> rfl
 
+/-! ### the id allocation loop terminates with a free id (pigeonhole) -/
+
+theorem nodup_subset_length : ∀ (l m : List Nat), l.Nodup → (∀ x ∈ l, x ∈ m) → l.length ≤ m.length := by
+  intro l
+  induction l with
+  | nil => intro m _ _; exact Nat.zero_le _
+  | cons a l ih =>
+    intro m hl hs
+    rw [List.nodup_cons] at hl
+    have ha : a ∈ m := hs a List.mem_cons_self
+    have hsub : ∀ x ∈ l, x ∈ m.erase a := by
+      intro x hx
+      have hne : x ≠ a := fun h => hl.1 (h ▸ hx)
+      exact (List.mem_erase_of_ne hne).mpr (hs x (List.mem_cons_of_mem _ hx))
+    have := ih (m.erase a) hl.2 hsub
+    rw [List.length_erase_of_mem ha] at this
+    have hpos := List.length_pos_of_mem ha
+    simp only [List.length_cons]
+    omega
+
+/-- the loop either stops at a usable id or every id it looked at was 0 or outstanding -/
+theorem probe_spec (reqs : List (Nat × Req)) : ∀ (f a : Nat),
+    (probe reqs f a ≠ 0 ∧ find reqs (probe reqs f a) = none) ∨
+    (∀ j, 1 ≤ j → j ≤ f → (a + j) % 65536 = 0 ∨ (find reqs ((a + j) % 65536)).isSome = true) := by
+  intro f
+  induction f with
+  | zero => intro a; right; intro j h1 h2; omega
+  | succ f ih =>
+    intro a
+    unfold probe
+    by_cases hbad : (a + 1) % 65536 = 0 ∨ (find reqs ((a + 1) % 65536)).isSome = true
+    · simp only [hbad, if_true]
+      rcases ih ((a + 1) % 65536) with h | h
+      · exact Or.inl h
+      · right
+        intro j h1 h2
+        by_cases hj : j = 1
+        · subst hj; exact hbad
+        · have := h (j - 1) (by omega) (by omega)
+          have e : ((a + 1) % 65536 + (j - 1)) % 65536 = (a + j) % 65536 := by omega
+          rw [e] at this
+          exact this
+    · simp only [hbad, if_false]
+      left
+      refine ⟨fun h => hbad (Or.inl h), ?_⟩
+      cases hf : find reqs ((a + 1) % 65536) with
+      | none => rfl
+      | some r => exact absurd (Or.inr (by rw [hf]; rfl)) hbad
+
+/-- **fuel suffices**: with distinct keys and fewer than 65 535 lookups outstanding, 65 536 steps
+of the allocation loop end at an id that is not 0 and not outstanding -/
+theorem probe_good (reqs : List (Nat × Req)) (a : Nat) (hl : reqs.length < 65535) :
+    probe reqs 65536 a ≠ 0 ∧ find reqs (probe reqs 65536 a) = none := by
+  rcases probe_spec reqs 65536 a with h | h
+  · exact h
+  · exfalso
+    have hall : ∀ k ∈ List.range' 1 65535, k ∈ reqs.map (·.1) := by
+      intro k hk'
+      have hk2 : 1 ≤ k ∧ k < 65536 := by
+        have := List.mem_range'_1.mp hk'
+        omega
+      -- the step at which the loop looks at id k
+      have hj : ∃ j, 1 ≤ j ∧ j ≤ 65536 ∧ (a + j) % 65536 = k := by
+        refine ⟨(k + 65536 - a % 65536 - 1) % 65536 + 1, by omega, by omega, by omega⟩
+      obtain ⟨j, j1, j2, j3⟩ := hj
+      rcases h j j1 j2 with h0 | hs
+      · omega
+      · rw [j3] at hs
+        cases hf : find reqs k with
+        | none => rw [hf] at hs; cases hs
+        | some r => exact List.mem_map.mpr ⟨(k, r), find_mem hf, rfl⟩
+    have := nodup_subset_length _ _ (List.nodup_range' (s := 1) (n := 65535)) hall
+    simp only [List.length_range', List.length_map] at this
+    omega
+
+/-! ### accounting -/
+
+theorem refuse_pres (st : St) : Pres st (refuse st).1 := by
+  intro hk ha
+  refine ⟨hk, ?_⟩
+  intro s hs
+  by_cases hlt : s < st.nextSerial
+  · rcases ha s hlt with h1 | h1 | h1 | h1
+    · exact Or.inl h1
+    · exact Or.inr (Or.inl h1)
+    · exact Or.inr (Or.inr (Or.inl (List.mem_cons_of_mem _ h1)))
+    · exact Or.inr (Or.inr (Or.inr h1))
+  · have : s = st.nextSerial := by
+      have : s < st.nextSerial + 1 := hs
+      omega
+    exact Or.inr (Or.inr (Or.inl (by rw [this]; exact List.mem_cons_self)))
+
 theorem lookup_pres (st : St) (sid : Nat) : Pres st (lookup st sid).1 := by
   unfold lookup
-  by_cases hs0 : st.servers = 0
-  · simp only [hs0, if_true]
-    intro hf
-    refine ⟨hf, fun hk ha => ⟨hk, ?_⟩⟩
-    intro s hs
-    by_cases hlt : s < st.nextSerial
-    · rcases ha s hlt with h1 | h1 | h1 | h1
-      · exact Or.inl h1
-      · exact Or.inr (Or.inl h1)
-      · exact Or.inr (Or.inr (Or.inl (List.mem_append.mpr (Or.inl h1))))
-      · exact Or.inr (Or.inr (Or.inr h1))
-    · have : s = st.nextSerial := by
-        have : s < st.nextSerial + 1 := hs
-        omega
-      exact Or.inr (Or.inr (Or.inl (List.mem_append.mpr (Or.inr (by simp [this])))))
-  · simp only [hs0, if_false]
-    intro hf
-    have hf' : st.idReuse = false ∧ find st.reqs ((st.alloc + 1) % 65536) = none := by
-      simp only [Bool.or_eq_false_iff] at hf
-      refine ⟨hf.1.1, ?_⟩
-      have := hf.1.2
-      cases hfind : find st.reqs ((st.alloc + 1) % 65536) <;> simp_all
-    refine ⟨hf'.1, fun hk ha => ⟨?_, ?_⟩⟩
-    · show (List.map _ (_ :: erase st.reqs _)).Nodup
-      simp only [List.map_cons, List.nodup_cons]
-      refine ⟨?_, List.Nodup.sublist (erase_keys_sublist _ _) hk⟩
-      intro hm
-      obtain ⟨e, he, hke⟩ := List.mem_map.mp hm
-      exact (mem_erase he).2 hke
-    · have hno := find_none hf'.2
-      intro s hs
-      by_cases hlt : s < st.nextSerial
-      · rcases ha s hlt with h1 | h1 | h1 | ⟨e, he, hse⟩
-        · exact Or.inl h1
-        · exact Or.inr (Or.inl h1)
-        · exact Or.inr (Or.inr (Or.inl h1))
-        · exact Or.inr (Or.inr (Or.inr ⟨e, List.mem_cons_of_mem _ (mem_erase_of_ne he (hno e he)), hse⟩))
-      · have : s = st.nextSerial := by
-          have : s < st.nextSerial + 1 := hs
-          omega
-        exact Or.inr (Or.inr (Or.inr ⟨_, List.mem_cons_self, this.symm⟩))
+  split
+  · exact refuse_pres st
+  · split
+    · exact refuse_pres st
+    · rename_i _ hlen
+      intro hk ha
+      have hgood := probe_good st.reqs st.alloc (by omega)
+      refine ⟨?_, ?_⟩
+      · show (List.map _ (_ :: erase st.reqs _)).Nodup
+        simp only [List.map_cons, List.nodup_cons]
+        refine ⟨?_, List.Nodup.sublist (erase_keys_sublist _ _) hk⟩
+        intro hm
+        obtain ⟨e, he, hke⟩ := List.mem_map.mp hm
+        exact (mem_erase he).2 hke
+      · have hno := find_none hgood.2
+        intro s hs
+        by_cases hlt : s < st.nextSerial
+        · rcases ha s hlt with h1 | h1 | h1 | ⟨e, he, hse⟩
+          · exact Or.inl h1
+          · exact Or.inr (Or.inl h1)
+          · exact Or.inr (Or.inr (Or.inl h1))
+          · exact Or.inr (Or.inr (Or.inr ⟨e, List.mem_cons_of_mem _ (mem_erase_of_ne he (hno e he)), hse⟩))
+        · have : s = st.nextSerial := by
+            have : s < st.nextSerial + 1 := hs
+            omega
+          exact Or.inr (Or.inr (Or.inr ⟨_, List.mem_cons_self, this.symm⟩))
 
 theorem cancel_pres (st : St) (id : Nat) : Pres st (cancel st id).1 := by
   unfold cancel
@@ -112,17 +186,17 @@ theorem cancel_pres (st : St) (id : Nat) : Pres st (cancel st id).1 := by
   | none => exact Pres.refl st
   | some r =>
     dsimp only
-    intro hfl
-    refine ⟨hfl, fun hk ha => ⟨List.Nodup.sublist (erase_keys_sublist _ _) hk, ?_⟩⟩
+    intro hk ha
+    refine ⟨List.Nodup.sublist (erase_keys_sublist _ _) hk, ?_⟩
     intro s hs
     rcases ha s hs with h1 | h1 | h1 | ⟨e, he, rfl⟩
     · exact Or.inl h1
-    · exact Or.inr (Or.inl (List.mem_append.mpr (Or.inl h1)))
+    · exact Or.inr (Or.inl (List.mem_cons_of_mem _ h1))
     · exact Or.inr (Or.inr (Or.inl h1))
     · by_cases hid : e.1 = id
       · have : e = (id, r) := key_inj st.reqs hk he (find_mem hf) hid
         subst this
-        exact Or.inr (Or.inl (List.mem_append.mpr (Or.inr (by simp))))
+        exact Or.inr (Or.inl List.mem_cons_self)
       · exact Or.inr (Or.inr (Or.inr ⟨e, mem_erase_of_ne he hid, rfl⟩))
 
 theorem runScript_pres (self : Nat) : ∀ (acts : List Act) (st : St), Pres st (runScript self st acts).1 := by
@@ -142,9 +216,7 @@ theorem finish_pres (st : St) (id : Nat) (r : Req) (res : Result) (hf : find st.
   have hfin : (finish st id r res).1 = (runScript id st0 r.script).1 := by rw [← hst0]; rfl
   rw [hfin]
   refine Pres.trans ?_ (runScript_pres id r.script st0)
-  intro hfl
-  have hfl' : st.idReuse = false := by rw [← hst0] at hfl; exact hfl
-  refine ⟨hfl', fun hk ha => ?_⟩
+  intro hk ha
   rw [← hst0]
   refine ⟨List.Nodup.sublist (erase_keys_sublist _ _) hk, ?_⟩
   intro s hlt
@@ -177,8 +249,8 @@ theorem applyReply_pres (st : St) (rep : Reply) : Pres st (applyReply st rep).1 
       · split
         · exact finish_pres _ _ _ _ hf
         · split
-          · intro hfl
-            refine ⟨hfl, fun hk ha => ⟨?_, ?_⟩⟩
+          · intro hk ha
+            refine ⟨?_, ?_⟩
             · show (List.map _ (List.map _ st.reqs)).Nodup
               rw [bump_keys]; exact hk
             · intro s hs
@@ -198,7 +270,7 @@ theorem onRecv_pres (st : St) (d : List Byte) : Pres st (onRecv st d).1 := by
     · exact applyReply_pres _ _
     · exact Pres.refl st
 
-theorem foldl_onTimeout_pres {st0 : St} (items : List Nat) :
+theorem foldl_onTimeout_pres {st0 : St} (items : List Token) :
     ∀ (acc : St × List Event), Pres st0 acc.1 → Pres st0 (items.foldl onTimeout acc).1 := by
   induction items with
   | nil => intro acc h; exact h
@@ -206,21 +278,25 @@ theorem foldl_onTimeout_pres {st0 : St} (items : List Nat) :
     intro acc h
     apply ih
     unfold onTimeout
-    cases hf : find acc.1.reqs x with
+    cases hf : find acc.1.reqs x.1 with
     | none => exact h
-    | some r => exact h.trans (finish_pres acc.1 x r { status := .timeout } hf)
+    | some r =>
+      dsimp only
+      split
+      · exact h.trans (finish_pres acc.1 x.1 r { status := .timeout } hf)
+      · exact h
 
 theorem tick_pres (st : St) : Pres st (tick st).1 := by
   unfold tick
   split
   · exact Pres.refl st
   · apply foldl_onTimeout_pres
-    exact fun h => ⟨h, fun k a => ⟨k, a⟩⟩
+    exact fun k a => ⟨k, a⟩
 
 theorem step_pres (st : St) (op : Op) : Pres st (step st op).1 := by
   cases op with
-  | servers n => exact fun h => ⟨h, fun k a => ⟨k, a⟩⟩
-  | defScript acts => exact fun h => ⟨h, fun k a => ⟨k, a⟩⟩
+  | servers n => exact fun k a => ⟨k, a⟩
+  | defScript acts => exact fun k a => ⟨k, a⟩
   | lookup sid => exact lookup_pres st sid
   | cancel id => exact cancel_pres st id
   | running id => exact Pres.refl st
@@ -244,6 +320,12 @@ theorem CalledOK.trans {a b c : St} {e1 e2 : List Event} (h1 : CalledOK a b e1) 
   unfold CalledOK at *
   rw [h2, h1, List.map_append, List.append_assoc]
 
+theorem lookup_called (st : St) (sid : Nat) : (lookup st sid).1.called = st.called := by
+  unfold lookup refuse; repeat' (first | rfl | split)
+
+theorem cancel_called (st : St) (id : Nat) : (cancel st id).1.called = st.called := by
+  unfold cancel; split <;> rfl
+
 theorem runScript_called (self : Nat) : ∀ (acts : List Act) (st : St), (runScript self st acts).1.called = st.called := by
   intro acts
   induction acts with
@@ -251,12 +333,9 @@ theorem runScript_called (self : Nat) : ∀ (acts : List Act) (st : St), (runScr
   | cons a as ih =>
     intro st
     cases a with
-    | lookup sid =>
-      simp only [runScript]; rw [ih]; unfold lookup; split <;> rfl
-    | cancel id =>
-      simp only [runScript]; rw [ih]; unfold cancel; split <;> rfl
-    | cancelSelf =>
-      simp only [runScript]; rw [ih]; unfold cancel; split <;> rfl
+    | lookup sid => simp only [runScript]; rw [ih, lookup_called]
+    | cancel id => simp only [runScript]; rw [ih, cancel_called]
+    | cancelSelf => simp only [runScript]; rw [ih, cancel_called]
 
 theorem finish_called (st : St) (id : Nat) (r : Req) (res : Result) :
     CalledOK st (finish st id r res).1 (finish st id r res).2 := by
@@ -285,7 +364,7 @@ theorem applyReply_called (st : St) (rep : Reply) : CalledOK st (applyReply st r
           · simp [CalledOK]
           · exact finish_called _ _ _ _
 
-theorem foldl_onTimeout_called {st0 : St} (items : List Nat) :
+theorem foldl_onTimeout_called {st0 : St} (items : List Token) :
     ∀ (acc : St × List Event), CalledOK st0 acc.1 acc.2 →
       CalledOK st0 (items.foldl onTimeout acc).1 (items.foldl onTimeout acc).2 := by
   induction items with
@@ -297,14 +376,17 @@ theorem foldl_onTimeout_called {st0 : St} (items : List Nat) :
     split
     · exact h
     · rename_i r _
-      exact h.trans (finish_called acc.1 x r { status := .timeout })
+      dsimp only
+      split
+      · exact h.trans (finish_called acc.1 x.1 r { status := .timeout })
+      · exact h
 
 theorem step_called (st : St) (op : Op) : CalledOK st (step st op).1 (step st op).2.events := by
   cases op with
   | servers n => simp [CalledOK, step]
   | defScript acts => simp [CalledOK, step]
-  | lookup sid => simp only [step, CalledOK]; unfold lookup; split <;> simp
-  | cancel id => simp only [step, CalledOK]; unfold cancel; split <;> simp
+  | lookup sid => simp [step, CalledOK, lookup_called]
+  | cancel id => simp [step, CalledOK, cancel_called]
   | running id => simp [CalledOK, step]
   | recv d =>
     simp only [step]
@@ -329,5 +411,179 @@ theorem run_called : ∀ (ops : List Op) (st : St), CalledOK st (run st ops).1 (
   | cons op ops ih =>
     intro st
     simpa [run, allEvents] using (step_called st op).trans (ih _)
+
+
+/-! ### a cancelled lookup is never called, a called one never cancelled -/
+
+/-- the logs are disjoint, an outstanding lookup is in neither, everything logged was issued -/
+def Disj (st : St) : Prop :=
+  (∀ s ∈ st.cancelled, s ∉ st.called) ∧
+  (∀ e ∈ st.reqs, e.2.serial ∉ st.called ∧ e.2.serial ∉ st.cancelled) ∧
+  (∀ s ∈ st.called, s < st.nextSerial) ∧ (∀ s ∈ st.cancelled, s < st.nextSerial)
+
+def Inv (st : St) : Prop := WF st ∧ Disj st
+
+theorem refuse_inv {st : St} (h : Inv st) : Inv (refuse st).1 := by
+  obtain ⟨hw, d1, d2, d3, d4⟩ := h
+  exact ⟨(refuse_ok hw).1.1, d1, d2, fun s hs => Nat.lt_succ_of_lt (d3 s hs), fun s hs => Nat.lt_succ_of_lt (d4 s hs)⟩
+
+theorem lookup_inv {st : St} (sid : Nat) (h : Inv st) : Inv (lookup st sid).1 := by
+  refine ⟨(lookup_ok sid h.1).1.1, ?_⟩
+  unfold lookup
+  split
+  · exact (refuse_inv h).2
+  · split
+    · exact (refuse_inv h).2
+    · obtain ⟨hw, d1, d2, d3, d4⟩ := h
+      refine ⟨d1, ?_, fun s hs => Nat.lt_succ_of_lt (d3 s hs), fun s hs => Nat.lt_succ_of_lt (d4 s hs)⟩
+      intro e he
+      rcases List.mem_cons.mp he with rfl | he
+      · exact ⟨fun hc => Nat.lt_irrefl _ (d3 _ hc), fun hc => Nat.lt_irrefl _ (d4 _ hc)⟩
+      · exact d2 e (mem_erase he).1
+
+theorem cancel_inv {st : St} (id : Nat) (h : Inv st) : Inv (cancel st id).1 := by
+  refine ⟨(cancel_ok id h.1).1.1, ?_⟩
+  unfold cancel
+  cases hf : find st.reqs id with
+  | none => exact h.2
+  | some r =>
+    dsimp only
+    obtain ⟨hw, d1, d2, d3, d4⟩ := h
+    have hm := find_mem hf
+    refine ⟨?_, ?_, d3, ?_⟩
+    · intro s hs
+      rcases List.mem_cons.mp hs with rfl | hs
+      · exact (d2 _ hm).1
+      · exact d1 s hs
+    · intro e he
+      obtain ⟨hmem, hne⟩ := mem_erase he
+      refine ⟨(d2 e hmem).1, ?_⟩
+      intro hc
+      rcases List.mem_cons.mp hc with heq | hc
+      · have : e = (id, r) := serial_inj st.reqs hw.1 hmem hm heq
+        exact hne (by rw [this])
+      · exact (d2 e hmem).2 hc
+    · intro s hs
+      rcases List.mem_cons.mp hs with rfl | hs
+      · exact hw.2 _ hm
+      · exact d4 s hs
+
+theorem runScript_inv (self : Nat) : ∀ (acts : List Act) (st : St), Inv st → Inv (runScript self st acts).1 := by
+  intro acts
+  induction acts with
+  | nil => intro st h; exact h
+  | cons a as ih =>
+    intro st h
+    cases a with
+    | lookup sid => simpa [runScript] using ih _ (lookup_inv sid h)
+    | cancel id => simpa [runScript] using ih _ (cancel_inv id h)
+    | cancelSelf => simpa [runScript] using ih _ (cancel_inv self h)
+
+theorem finish_inv {st : St} {id : Nat} {r : Req} (res : Result) (h : Inv st) (hf : find st.reqs id = some r) :
+    Inv (finish st id r res).1 := by
+  obtain ⟨hw, d1, d2, d3, d4⟩ := h
+  have hm := find_mem hf
+  show Inv (runScript id { st with reqs := erase st.reqs id, called := st.called ++ [r.serial] } r.script).1
+  apply runScript_inv
+  refine ⟨wf_erase_wf id hw rfl rfl, ?_, ?_, ?_, d4⟩
+  · intro s hs hc
+    rcases List.mem_append.mp hc with hc | hc
+    · exact d1 s hs hc
+    · simp only [List.mem_singleton] at hc
+      subst hc
+      exact (d2 _ hm).2 hs
+  · intro e he
+    obtain ⟨hmem, hne⟩ := mem_erase he
+    refine ⟨?_, (d2 e hmem).2⟩
+    intro hc
+    rcases List.mem_append.mp hc with hc | hc
+    · exact (d2 e hmem).1 hc
+    · simp only [List.mem_singleton] at hc
+      have : e = (id, r) := serial_inj st.reqs hw.1 hmem hm hc
+      exact hne (by rw [this])
+  · intro s hs
+    rcases List.mem_append.mp hs with hs | hs
+    · exact d3 s hs
+    · simp only [List.mem_singleton] at hs
+      subst hs
+      exact hw.2 _ hm
+
+theorem applyReply_inv {st : St} (rep : Reply) (h : Inv st) : Inv (applyReply st rep).1 := by
+  cases rep with
+  | ignore => exact h
+  | answer id a c =>
+    simp only [applyReply]
+    cases hf : find st.reqs id with
+    | none => exact h
+    | some r => exact finish_inv _ h hf
+  | rcode id rc =>
+    have hok := applyReply_ok (.rcode id rc) h.1
+    simp only [applyReply] at hok ⊢
+    cases hf : find st.reqs id with
+    | none => exact h
+    | some r =>
+      rw [hf] at hok
+      simp only at hok ⊢
+      split
+      · exact finish_inv _ h hf
+      · split
+        · exact finish_inv _ h hf
+        · split
+          · rename_i h1 h2 h3
+            simp only [h1, h2, h3, if_true, if_false] at hok
+            refine ⟨hok.1, h.2.1, ?_, h.2.2.2⟩
+            intro e he
+            obtain ⟨e0, he0, rfl⟩ := List.mem_map.mp he
+            have := h.2.2.1 e0 he0
+            split <;> exact this
+          · exact finish_inv _ h hf
+
+theorem onRecv_inv {st : St} (d : List Byte) (h : Inv st) : Inv (onRecv st d).1 := by
+  unfold onRecv
+  split
+  · exact h
+  · split
+    · exact applyReply_inv _ h
+    · exact h
+
+theorem foldl_onTimeout_inv (items : List Token) :
+    ∀ (acc : St × List Event), Inv acc.1 → Inv (items.foldl onTimeout acc).1 := by
+  induction items with
+  | nil => intro acc h; exact h
+  | cons x l ih =>
+    intro acc h
+    apply ih
+    unfold onTimeout
+    cases hf : find acc.1.reqs x.1 with
+    | none => exact h
+    | some r =>
+      dsimp only
+      split
+      · exact finish_inv { status := .timeout } h hf
+      · exact h
+
+theorem step_inv {st : St} (op : Op) (h : Inv st) : Inv (step st op).1 := by
+  cases op with
+  | servers n => exact h
+  | defScript acts => exact h
+  | lookup sid => exact lookup_inv sid h
+  | cancel id => exact cancel_inv id h
+  | running id => exact h
+  | recv d => exact onRecv_inv d h
+  | tick =>
+    simp only [step]
+    unfold tick
+    split
+    · exact h
+    · apply foldl_onTimeout_inv
+      exact h
+
+theorem run_inv : ∀ (ops : List Op) (st : St), Inv st → Inv (run st ops).1 := by
+  intro ops
+  induction ops with
+  | nil => intro st h; exact h
+  | cons op ops ih => intro st h; simpa [run] using ih _ (step_inv op h)
+
+theorem init_inv : Inv init := ⟨init_wf, by simp [Disj, init]⟩
 
 end Tbox.C15
